@@ -206,14 +206,17 @@ def render(case):
             if b["t"] == "bad_image_file":
                 files[f"source/images/garbage-{b['n']}.png"] = b"this is not a png file\n"
 
-    # a page that is not UTF-8: reported under the page at the line that holds the first undecodable byte - a line is what ends in
-    # "\n" in the file, whatever stands before the byte on the way (letters of several bytes, "\r\n" line ends)
+    # a page that is not UTF-8: reported under the page at the line that holds the first undecodable byte, whatever stands before the
+    # byte on the way (letters of several bytes, "\r\n" or lone "\r" line ends)
     g = case.get("garbled")
     if g:
         filler = {"plain": b"Plain line.\n", "multibyte": "Zeile mit \u00e4\u00f6\u00fc\u00df \u65e5\u672c\u8a9e \U0001f600 \u00e9\u00e9\u00e9\u00e9\u00e9\u00e9\u00e9\u00e9.\n".encode("utf-8"),
                   "crlf": b"Windows line.\r\n", "cr": b"old\rmac\rline\n"}[g["style"]]
         files["source/garbled.txt"] = (b"=======\nGarbled\n=======\n\n" + filler * g["line"] + b"caf\xe9 latin-1 text\nmore\n")
-        faults.append({"file": "garbled.txt", "line": 4 + g["line"], "classes": ["CannotOpenFile"], "kind": "undecodable", "in": "page", "n": 0})
+        # lines as the parser counts them in every other diagnostic of the file: the text is read with universal newlines, so a lone
+        # "\r" ends a line just as "\n" and "\r\n" do
+        per = 3 if g["style"] == "cr" else 1
+        faults.append({"file": "garbled.txt", "line": 4 + per * g["line"], "classes": ["CannotOpenFile"], "kind": "undecodable", "in": "page", "n": 0})
         faults.append({"file": "garbled.txt", "line": 0, "classes": ["OrphanedPage"], "kind": "orphan", "in": "page", "n": "garbled"})
 
     # shared includes: faults are expected under the include file, at the line inside it
@@ -746,6 +749,10 @@ class C14(core.PropertyCheck):
                     case["yaml"] = [{"type": "extracts", "name": "x", "docs": [{"ref": "ex0", "blocks": [{"t": "text", "n": 3}, {"t": t, "n": 2}]}]}]
                     pages[1]["blocks"].append({"t": "use_extract", "name": "ex0", "n": 4})
                 yield case
+        for style in ("plain", "multibyte", "crlf", "cr"):
+            pages = [{"name": "index", "toc": True, "blocks": []}, {"name": "alpha", "toc": True, "blocks": [{"t": "text", "n": 1}]}]
+            yield {"kind": "e2e", "pages": pages, "includes": [], "yaml": [], "config": dict(base_cfg), "toc_missing": [],
+                   "garbled": {"style": style, "line": 3}}
         for extra in ("orphan", "toc", "yaml_invalid", "subst", "banner", "asset", "multi_equal"):
             pages = [{"name": "index", "toc": True, "blocks": []}, {"name": "alpha", "toc": extra != "orphan", "blocks": [{"t": "text", "n": 1}]}]
             case = {"kind": "e2e", "pages": pages, "includes": [], "yaml": [], "config": dict(base_cfg), "toc_missing": []}
